@@ -5,8 +5,8 @@ The byte layout of every scenario (N and the item boundaries) is asked from the 
 import os
 import random
 
-SCENARIOS = ["hin", "hout", "seed", "leech", "dis", "pex", "multi"]
-SEEDING = {"hin", "seed", "pex"}
+SCENARIOS = ["hin", "hout", "seed", "leech", "dis", "pex", "multi", "mblk", "hs3", "full"]
+SEEDING = {"hin", "seed", "pex", "hs3", "full"}
 PEER_FAULTS = "XRH"          # remote close / reset / half close of one peer
 GLOBAL_FAULTS = "TSCDM"      # timeout, local stop / close / remove, every peer at once
 CORPUS = os.path.join(os.path.dirname(os.path.dirname(os.path.abspath(__file__))), "corpus", "C16")
@@ -28,10 +28,10 @@ def interesting_offsets(lay):
     ks = {0, N}
     for off, kind, _ in lay["bounds"]:
         rel = [-1, 0, 1]
-        if kind == "hs":
-            rel += [19, 20, 21, 47, 48, 49, 67]
+        if kind in ("hs", "hsa"):
+            rel += [19, 20, 21, 47, 48, 49, 59, 67]
         elif kind in ("pc", "pp", "bad"):
-            rel += [4, 5, 12, 13, 14, 23, 24, 25]
+            rel += list(range(2, 15)) + [23, 24, 25]   # block boundary + 0..12 bytes of the next header
         else:
             rel += [3, 4, 5]
         for r in rel:
